@@ -84,6 +84,9 @@ func name(i, n int) string {
 		return strings.Repeat("x-", i-1) + "my-lib.p"
 	}
 	if i >= n {
+		if n == 1 {
+			return "" // the empty name is a name no script has
+		}
 		return "missing.p"
 	}
 	return fmt.Sprintf("s%d.p", i)
@@ -671,7 +674,7 @@ func TestIdenticalTexts(t *testing.T) {
 		src    string
 		reject bool
 	}{
-		{"x = = 1", true}, {"y = 1\nz = \"unterminated", true}, {"a b\nc = 1 $ 2", true}, {"y = 2\nnosuch()", true}, {"x = len(len(nosuch()))", true}, {"use(\"missing.p\")", true},
+		{"x = = 1", true}, {"y = 1\nz = \"unterminated", true}, {"a b\nc = 1 $ 2", true}, {"y = 2\nnosuch()", true}, {"x = len(len(nosuch()))", true}, {"use(\"missing.p\")", true}, {"use(\"\")", true}, {"use('')", true}, {"x = 1\nuse(\"\"\"\"\"\")", true}, {"use(\" \")", true},
 		{"x = 1\nbreak", true}, {"add_key(k, 1)", false}, {"use(\"ok.p\")", false}, {"x = 1\nuse(\"bad.p\")", true},
 	}
 	names := [][]string{{"a.p", "b.p"}, {"logging/nginx.p", "metric/nginx.p", "nginx.p"}, {"one.p", "two.p", "three.p", "four.p"}}
@@ -796,7 +799,7 @@ func TestFromFiles(t *testing.T) {
 // failed scripts: the new script is rejected with the callee's error followed by its own call site, in the position
 // chain and in the rendered text alike, and the stored errors stay what they were.
 func TestRelinkWithFailedCallee(t *testing.T) {
-	bads := []string{"x = = 1", "y = 2\nnosuch()", "x = len(len(nosuch()))", "if true {\n  z = [1, {\"k\": len(len(len(nosuch2())))}]\n}", "use(\"missing.p\")", "a b\nc = 1 $ 2"}
+	bads := []string{"x = = 1", "y = 2\nnosuch()", "x = len(len(nosuch()))", "if true {\n  z = [1, {\"k\": len(len(len(nosuch2())))}]\n}", "use(\"missing.p\")", "a b\nc = 1 $ 2", "use(\"\")", "if true { use('') }"}
 	mains := []string{"use(\"lib.p\")", "x = 1\n  use(\"lib.p\")", "if true {\n  use(\"lib.p\")\n}\nuse(\"ok.p\")", "use(\"ok.p\")\nfor i in [1] { use(\"lib.p\") }"}
 	render := func(pe *errchain.PlError) string {
 		if pe == nil || len(pe.PosChain) == 0 {
@@ -1070,7 +1073,7 @@ func parseConfig(r replay) (config, bool) {
 				rest = rest[j+5:]
 				e := strings.Index(rest, "\"")
 				tn := rest[:e]
-				if tn == "missing.p" {
+				if tn == "missing.p" || tn == "" {
 					s.Calls = append(s.Calls, n)
 				} else {
 					var ti int
